@@ -173,12 +173,12 @@ PROPS = {
         "level_text": "Kernel-checked multi-run stream theorems: for histories with any number of restarts (append on/off and buffer capacity per run, same rotation "
                       "config, monotone clock across runs), every record of every run is on disk exactly once in logging order — Numbers and Timestamps "
                       "(restart_preserves_rcurrent: without append the old rCURRENT is preserved as the newest rotated file under a fresh name, highest index+1 resp. "
-                      "collision-free stamp), NumbersDirect (full), TimestampsDirect (guarded: an appending run must find the newest stamp without .restart siblings; the "
-                      "unguarded statement is proved FALSE = known finding), non-rotating writer with append; no existing name is ever reused (fresh_names_*). "
+                      "collision-free stamp), NumbersDirect and TimestampsDirect (restart_preserves_numbersDirect, restart_preserves_timestampsDirect: unguarded since the repair of the code - an "
+                      "appending run continues the newest file of the newest stamp, appendTarget), non-rotating writer with append; no existing name is ever reused (fresh_names_*). "
                       "Differential check on multi-run histories incl. same-second restarts; stream oracle across runs incl. the documented truncation.",
-        "level_note": "Without cleanup: the stream theorems above. WITH cleanup (Props/C06Cleanup, all four namings, append/capacity/suffix per run, same rotation configuration): what is on disk is exactly the newest kk+m(+1) files of the un-cleaned multi-run log, hence a contiguous tail of everything logged by all runs, on file boundaries (restart_cleanup_keeps_newest, restart_cleanup_tail, restart_cleanup_vs_uncleaned); indexes and stamps chosen at a restart are fresh with respect to every file on disk, plain or compressed; for Numbers/NumbersDirect the names on disk and their contents are characterised exactly (rotated_names_*, name_content_numbers; with (k,m)=(0,0) under Numbers the index restarts at 0 after everything was removed - no existing file is overwritten). TimestampsDirect with an appending restart needs the guard TsdGuard; without it records are LOST, not only reordered (tsd_append_cleanup_violation_witness: the known finding, with cleanup). "
+        "level_note": "Without cleanup: the stream theorems above. WITH cleanup (Props/C06Cleanup, all four namings, append/capacity/suffix per run, same rotation configuration): what is on disk is exactly the newest kk+m(+1) files of the un-cleaned multi-run log, hence a contiguous tail of everything logged by all runs, on file boundaries (restart_cleanup_keeps_newest, restart_cleanup_tail, restart_cleanup_vs_uncleaned); indexes and stamps chosen at a restart are fresh with respect to every file on disk, plain or compressed; for Numbers/NumbersDirect the names on disk and their contents are characterised exactly (rotated_names_*, name_content_numbers; with (k,m)=(0,0) under Numbers the index restarts at 0 after everything was removed - no existing file is overwritten). These proofs first needed a guard for TimestampsDirect with an appending restart, and their counterexample (records LOST, not only reordered, once a cleanup strategy is configured) was confirmed on the real code: repaired by fix 3b381bc; the model follows, the guards are gone, the former counterexamples are regression examples (tsd_append_former_witness, tsd_append_cleanup_former_witness) and corpus cases. "
                       "Formats: the standard one, two more year-first ones, and a day-first custom format whose text order is not the time order (without cleanup; directed histories across month ends). "
-                      "Two genuine defects repaired (fix 1fbd892 gz index, fix bec99bb same-second truncation); one known finding (TimestampsDirect+append).",
+                      "Three genuine defects repaired (fix 1fbd892 gz index, fix bec99bb same-second truncation, fix 3b381bc TimestampsDirect+append).",
         "correspondence": "Flw model (initState from the directory as it is) vs new FileLogWriter instances on the same directory",
         "rule": "1..4 restarts per history x append on/off per run x namings x criteria x forced rotations x restarts in the same second or 1s..1d later; "
                 "non-trivial = a restart or rotation happened",
